@@ -30,7 +30,7 @@ func (eng) Gen(c, tier string) (json.RawMessage, error) { return Gen(c, tier) }
 func (eng) Run(tape json.RawMessage, res *core.Result)  { run(tape, res) }
 func TestSim(t *testing.T)                              { engine.Main(t, eng{}) }
 
-const password = "pw-Zt5qLm8RkV2xNc7HbWy3"
+const asciiPassword = "pw-Zt5qLm8RkV2xNc7HbWy3"
 
 type opRec struct {
 	I       int    `json:"i"`
@@ -99,6 +99,14 @@ func run(tapeJSON json.RawMessage, res *core.Result) {
 		res.Verdict, res.Harness = "invalid", err.Error()
 		return
 	}
+	password := asciiPassword
+	if tp.Password != "" {
+		password = tp.Password
+		res.Probes["password-outside-ascii"]++
+	}
+	if tp.Conf.EtypeSep != "" {
+		res.Probes["etype-lists-separated-by-commas-or-tabs"]++
+	}
 	tktLife, renewLife := parseDur(tp.Conf.TicketLifetime, 24*time.Hour), parseDur(tp.Conf.RenewLifetime, 0)
 	if len(tp.Ops) < 1 || len(tp.Ops) > 60 || tp.Chain < 0 || tp.Chain > 8 || tktLife < 0 || renewLife < 0 ||
 		len(tp.Conf.TktEtypes) == 0 || len(tp.Conf.TGSEtypes) == 0 || (tp.Cred != "keytab" && tp.Cred != "password" && tp.Cred != "ccache") {
@@ -130,8 +138,10 @@ func run(tapeJSON json.RawMessage, res *core.Result) {
 	if len(conf.Realms["SIM.TEST"]) == 0 {
 		conf.Realms["SIM.TEST"] = []string{"10.0.0.1:88"}
 	}
-	conf.PreauthTypes = []int{int(tktIDs[0])}
-	if tp.PreauthPref != 0 && !tp.AssumePreauth {
+	// preferred_preauth_types is a list of pre-authentication data types (default 17, 16, 15, 14): it
+	// says nothing about encryption types, whatever numbers it holds
+	conf.PreauthTypes = nil
+	if tp.PreauthPref != 0 {
 		conf.PreauthTypes = []int{tp.PreauthPref}
 	}
 	prev := sim
@@ -426,8 +436,11 @@ func run(tapeJSON json.RawMessage, res *core.Result) {
 	localAddrs, _ := types.LocalHostAddresses()
 	nonces := map[int64]int{}
 	lastVerdict := map[int]string{}
+	var hintsAt time.Time // when the KDC first answered an AS request of this client with its pre-authentication hints
 	for _, rq := range reqs {
 		res.Evals++
+		// (one simulated second later every request under construction at that moment has been sent)
+		hintsReceived := !hintsAt.IsZero() && rq.At.After(hintsAt.Add(time.Second))
 
 		d := map[string]interface{}{"at_ns": at(rq.At), "task": rq.Task, "realm": rq.Realm, "verdict": rq.Verdict, "notes": rq.Notes}
 		if rq.Req == nil {
@@ -495,12 +508,28 @@ func run(tapeJSON json.RawMessage, res *core.Result) {
 			if q.CName == nil || q.CName.String() != "alice" || q.Realm != "SIM.TEST" {
 				viol("asreq.client", d)
 			}
+			if rq.PAEtype != 0 {
+				// the key of the encrypted timestamp is of a type the request itself asks for (the
+				// configured ticket etypes): anything else the KDC need not even have a key for
+				listed := false
+				for _, e := range q.Etypes {
+					listed = listed || e == rq.PAEtype
+				}
+				if !listed {
+					d["pa_etype"] = rq.PAEtype
+					viol("preauth.etype-not-among-the-requested", d)
+				}
+			}
 			if rq.PAKeyOK != nil {
 				if !*rq.PAKeyOK {
 					// an encrypted timestamp sent up front (no hints at hand yet) may use the wrong key;
 					// one sent in answer to the KDC's hints may not
 					if lastVerdict[rq.Task] == "error:25" || lastVerdict[rq.Task] == "error:24" {
 						viol("preauth.key-after-hints", d)
+					} else if hintsReceived && tp.Cred == "password" {
+						// the KDC has told this client before how the key is derived: every wrong
+						// timestamp counts against the account at the KDC
+						viol("preauth.key-wrong-although-hints-were-received-earlier", d)
 					} else {
 						res.Stats["optimistic_preauth_wrong_key"]++
 					}
@@ -550,6 +579,9 @@ func run(tapeJSON json.RawMessage, res *core.Result) {
 			res.Stats["kdc_refused_"+strings.TrimPrefix(rq.Verdict, "error:")]++
 		}
 		lastVerdict[rq.Task] = rq.Verdict
+		if rq.Req.MsgType == rk.MsgASReq && rq.Realm == "SIM.TEST" && (rq.Verdict == "error:25" || rq.Verdict == "error:24") && hintsAt.IsZero() {
+			hintsAt = rq.At
+		}
 	}
 	for _, c := range nonces {
 		if c > 1 {
